@@ -359,6 +359,9 @@ def import_corpus():
     add("push-pop", D + "(assert a)(push 1)(assert b)(push 1)(assert c)(pop 1)(assert (< x y))(pop 1)(assert (< y z))")
     add("push-pop-n", D + "(assert a)(push 2)(assert b)(pop 2)(push 1)(assert c)")
     add("push-declare", D + "(push 1)(declare-fun t () Int)(assert (< t x))(pop 1)(assert a)")
+    add("push-pop-zero", D + "(assert a)(push 0)(assert b)(pop 0)(assert c)")
+    add("push-pop-default", D + "(assert a)(push)(assert b)(pop)(assert c)")
+    add("push-3-pop-3", D + "(assert a)(push 3)(assert b)(pop 2)(assert c)(pop 1)(assert (< x y))")
     add("two-assertions", D + "(assert a)(assert (or b c))(check-sat)")
     # optimisation commands (pySMT extension of the command set)
     add("omt-objectives", D + "(maximize x)(minimize (+ x y))(check-sat)(get-objectives)")
@@ -512,6 +515,13 @@ def _import_job(job):
             shown = [sc.node_str(w, a[0]) for n_, a in cmds if n_ == "assert" and a and w.is_node(a[0])]
             if shown:
                 out["detail"] += "; read as %s" % "; ".join(shown)[:200]
+        return out
+    # push / pop numerals
+    mine_pp = [(n_, a[0] if a else None) for n_, a in cmds if n_ in ("push", "pop")]
+    ref_pp = [(n_, k) for n_, k in ref.commands if n_ in ("push", "pop")]
+    if mine_pp != ref_pp:
+        out["kind"] = "invalid"
+        out["detail"] = "stack commands are read as %s, the text says %s" % (mine_pp, ref_pp)
         return out
     # compare the asserted terms (and objective terms / soft clauses) in order
     TERM_CMDS = ("assert", "maximize", "minimize", "assert-soft")
